@@ -123,7 +123,9 @@ def run(chk: Check):
     if len(cases) < (300 if thorough else 40):
         raise tlc.TlcError(f"only {len(cases)} images generated")
     if not thorough and len(cases) > 220:          # every Finish has 4 successors (FAT version x spread): keep a stride
-        cases = cases[:: -(-len(cases) // 220)]
+        import random
+        random.Random(chk.seed).shuffle(cases)            # not a stride: neighbours differ only in FAT version / spread
+        cases = cases[:220]
     for i, case in enumerate(cases):
         run_case(chk, case, chk.seed + i, "real")
     c = cases[len(cases) // 2]
